@@ -79,7 +79,8 @@ size_t vg_buf_len;
                                            (size_t) (r) == vg_buf_len - __CPROVER_POINTER_OFFSET(p))
 #endif
 
-#ifdef VERIF_OWN_STRCHR
+/* bounded units bring their own loop-based libc functions and define NET_EXACT_LIBC */
+#if defined(VERIF_OWN_STRCHR) && !defined(NET_EXACT_LIBC)
 static char *vg_search(const char *s, int c)
 {
     if (nondet_bool()) {
